@@ -402,3 +402,5 @@ func runCase(c Case, ctx *hx.Ctx) *hx.Failure {
 func TestPropContains(t *testing.T) { hx.Check(t, 40000, genCase, runCase) }
 
 func TestReplay(t *testing.T) { hx.Replay(t, "TestPropContains", 1, runCase) }
+
+func FuzzContains(f *testing.F) { hx.Fuzz(f, genCase, runCase) }
